@@ -369,6 +369,8 @@ def run_case(case, repo_checks=True):
                                    if _path(i) in fs.files else None)
             elif dst == 'seek':
                 rec['fileobj'] = fakefs.SeekableSink(sched, trace, faults, i)
+            elif t.get('seek_attr'):
+                rec['fileobj'] = fakefs.PipeLikeSink(sched, trace, faults, i)
             else:
                 rec['fileobj'] = fakefs.NonSeekableSink(
                     sched, trace, faults, i)
